@@ -201,7 +201,9 @@ impl<'a> Gen<'a> {
         let t = force_type.unwrap_or_else(|| *self.r.pick(&[1u16, 1, 28, 2, 5, 12, 15, 6, 39, 16, 99, 33, 257]));
         if t == 41 { self.p.push(0); } else { self.name(true); }
         put16(&mut self.p, t);
-        put16(&mut self.p, if t == 41 { 1232 } else { 1 });
+        // OPT: the class field is the advertised UDP payload size -- any value, the small ones included
+        let cl = if t == 41 { match self.r.below(8) { 0 => 0, 1 => 511, 2 => 512, 3 => 513, 4 => 65535, 5 => self.r.next() as u16, _ => 1232 } } else { 1 };
+        put16(&mut self.p, cl);
         put32(&mut self.p, self.r.next() as u32);
         let lenpos = self.p.len();
         put16(&mut self.p, 0);
@@ -285,7 +287,19 @@ pub fn gen_packet(r: &mut Rng) -> Vec<u8> {
 /// hand-made boundary family: long pointer chains (15/16/17), maximal names (254/255/256), labels 63/64
 pub fn gen_boundary(r: &mut Rng) -> Vec<u8> {
     let mut p = vec![0u8, 1, 0x80, 0, 0, 1, 0, 1, 0, 0, 0, 0];
-    match r.below(3) {
+    match r.below(4) {
+        3 => {
+            // a DNAME record whose pointer-free target has total wire length n around the 255-byte limit
+            let n = 253 + r.below(5) as usize;
+            let mut name = vec![];
+            while name.len() + 64 < n - 1 { name.push(63); name.extend(std::iter::repeat(b'd').take(63)); }
+            let rest = n - 1 - name.len();
+            if rest > 1 { name.push((rest - 1) as u8); name.extend(std::iter::repeat(b'e').take(rest - 1)); }
+            name.push(0);
+            p.extend_from_slice(&[1, b'q', 0]); put16(&mut p, 1); put16(&mut p, 1);
+            p.extend_from_slice(&[0xc0, 12]); put16(&mut p, 39); put16(&mut p, 1); put32(&mut p, 7); put16(&mut p, name.len() as u16); p.extend(name);
+            p[7] = 1;
+        }
         0 => {
             // question name = chain of k pointers ending in a label
             let k = 14 + r.below(5) as usize;
